@@ -5,6 +5,8 @@
 (*   [k |-> "file", n, size]   size is a size CLASS (see harness)          *)
 (*   [k |-> "link", n, to]     to is a target CLASS                        *)
 (*   [k |-> "dir",  n, ch]     ch a sequence of file/link entries          *)
+(* cfg = [version, nowrap, stdin, spell]; spell: how the source directory  *)
+(* is named on the command line ("abs" | "dot" | "dirdot")                 *)
 (* Packed(t, wrap) is the root directory of the DAG the tool builds: with  *)
 (* wrapping a directory holding one entry named like the source directory, *)
 (* without it the source directory itself.  Extracted(t, wrap) is the set  *)
@@ -39,8 +41,12 @@ Paths(p, es) ==
           : i \in 1..Len(es) }
 
 Original == Paths(<<>>, t)
-Extracted == IF cfg.nowrap THEN Paths(<<>>, t) ELSE {[path |-> <<"src">>, k |-> "dir"]} \cup Paths(<<"src">>, t)
-Strip(S) == { IF Len(x.path) > 0 /\ x.path[1] = "src" /\ ~cfg.nowrap THEN [x EXCEPT !.path = Tail(@)] ELSE x : x \in S }
+(* The wrapper entry is named like the last element of the source path AS SPELLED on the command
+   line: "src" for /abs/path/src, but "." for `car create .` (run inside the tree) and for `src/.`;
+   an entry named "." extracts onto the output directory itself. *)
+Wrapped == ~cfg.nowrap /\ cfg.spell = "abs"
+Extracted == IF Wrapped THEN {[path |-> <<"src">>, k |-> "dir"]} \cup Paths(<<"src">>, t) ELSE Paths(<<>>, t)
+Strip(S) == { IF Len(x.path) > 0 /\ x.path[1] = "src" /\ Wrapped THEN [x EXCEPT !.path = Tail(@)] ELSE x : x \in S }
 RoundTrip == { x \in Strip(Extracted) : x.path # <<>> } = Original
 
 Emit == PrintT(ToJson([rec |-> "tree", tree |-> t, cfg |-> cfg, expected |-> Extracted]))
